@@ -179,6 +179,7 @@ def make_interface(prop):
         pairs = sorted({f"{reader}<-{c['name'].split('(')[0]}" for c in culprits}) or [f"{reader}<-none"]
         return {"culprits": sorted({f"{c['obj']}{c['path']}:{c['name']}" for c in culprits}),
                 "reader_pairs": pairs,
+                "classes_in_scenario": r.get("classes", []),
                 "parent_root_accuracy": parent_acc,
                 "parent_root_errors": [x["err"] for x in pr],
                 "approximate_factor_involved": involved,
